@@ -327,6 +327,9 @@ func compress(ch []int) string {
 var snapOpts = snap.Options{SkipFields: map[string]bool{
 	"Funcode.lntOnce": true, // lazily decoded position table, guarded by sync.Once
 	"Funcode.lnt":     true,
+	// the epoch in which Freeze last visited the function: an atomic mark (fix 3835061) that a
+	// re-Freeze after an early-freeze event rewrites; not state a reader of the value observes
+	"Function.frozenAt": true,
 }}
 
 type snapCase struct {
@@ -633,7 +636,7 @@ func init() {
 		Assumptions: []string{
 			"preemption inside one bytecode instruction is not a scheduling point of sub-check 2; it is covered by the snapshot invariant (no write on any read path) and by the race detector pass",
 			"the race detector is happens-before based: for barrier-released, otherwise unsynchronised bodies a conflicting pair is reported whenever both accesses execute",
-			"Funcode.lnt/lntOnce (position table decoded lazily under sync.Once) are excluded from the snapshot; the race pass covers them",
+			"Funcode.lnt/lntOnce (position table decoded lazily under sync.Once) and Function.frozenAt (atomic freeze-epoch mark) are excluded from the snapshot; the race pass covers them; the fixture first lets one closure be frozen before its captured variable is assigned, so that every later re-Freeze of a shared closure happens in a later freeze epoch",
 		},
 		BudgetQuick: 75, BudgetThorough: 1200,
 	})
